@@ -57,6 +57,35 @@ def run(cx):
     tid = vals.get("ACT_USE_PARENT_TASK_ID")
     tid_ok = tid is not None and tid[0] == "call" and tid[1] == T.Q_CTX_TASK and tid[3] == ("id",)
     cx.ob("C15.R1", "call:parent-link", pid_ok and tid_ok, "the parent link is (ctx.proc.id(), ctx.task().id)", st[0].loc)
+    # the map that carries the return address goes to the child and nowhere else: whatever `execute` returns becomes data of
+    # the calling act (Act::run -> update_data), and update_data writes every name an ancestor holds - in a process that is
+    # itself a called sub-process the root holds exactly these two keys (its own return address)
+    uses = []
+    for c in f.calls():
+        for i, a in enumerate(c.args):
+            if a[0] != "k" and pa.root(f, a)[:3] == inputs[:3] and not (c.q.endswith("Vars::set") and i == 0) and c.b != st[0].b:
+                if (c.callee.get("decl") or "") in ("std::ops::Deref::deref", "std::ops::Drop::drop"):
+                    continue
+                uses.append(short_name(c.q))
+    ret_derives = False
+    for bi, b in enumerate(f.blocks):
+        for s_ in b["s"]:
+            if s_[0] == "A" and s_[1][0] == 0 and s_[2][0] == "agg" and s_[2][2] == "Ok":
+                r = pa.root(f, s_[2][4][0]) if s_[2][4] else None
+                if r is not None and r[0] == "agg" and r[2] == "Some":
+                    ops_ = list(pa.agg_operands(f, r).values())
+                    inner = pa.root(f, ops_[0]) if ops_ else None
+                    n_ = 0
+                    while inner is not None and inner[0] == "call" and inner[:3] != inputs[:3] and n_ < 4:
+                        cc_ = Call(f, inner[2])
+                        inner = pa.root(f, cc_.args[0]) if cc_.args else None
+                        n_ += 1
+                    if inner is not None and inner[:3] == inputs[:3]:
+                        ret_derives = True
+    cx.ob("C15.R1", "call:link-goes-to-child-only", not uses and not ret_derives,
+          "the map carrying the parent pid / tid is handed to `start` and to nothing else%s" % (
+              "" if (not uses and not ret_derives) else " - but it is also %s: as data of the calling act it is written through to every ancestor holding these names, and the root of a called sub-process holds them as its own return address" % (
+                  "returned from execute" if ret_derives else "passed to %s" % uses)), st[0].loc)
     mid = pv.root(f, st[0].args[1])
     cx.ob("C15.R1", "call:target", mid[0] == "param" and mid[1] == 1 and mid[3][-1:] == ("to",), "the model started is `self.to`", st[0].loc)
     from vlib.discard import classify
@@ -67,7 +96,7 @@ def run(cx):
     fc = [c for c in g.calls() if c.kind == "virtual" and c.q.endswith("DbCollection::find")]
     ok = len(fc) == 1 and classify(m, g, fc[0])[0] == "PROPAGATED"
     cx.ob("C15.R1", "call:unknown-model", ok, "ProcessExecutor::start propagates the `find` error of an unknown model", fc[0].loc if fc else g.loc())
-    cx.floor("C15.R1", 6)
+    cx.floor("C15.R1", 7)
 
     # ---- R2 ---------------------------------------------------------------------------------------
     f = m.one(r"^acts::scheduler::runtime::Runtime::return_to_act$")
